@@ -480,7 +480,12 @@ def closer_table(m: FnModel, rep, rule: str) -> None:
         from ..inline import inline_pure_exprs
         hx = inline_pure_exprs(m.index, f.module, None, helper)
         text += ' ' + src(_Rename({hp[0]: 'S'}).visit(copy.deepcopy(hx))) if hp else src(hx)
-    rep.check('S.agent.position' in text and 'isinstance(S.grid[' in text
+    # the cells of the state's grid are tested for the requested type, however the scan over the
+    # grid is spelled (subscripts of the grid, rows of `grid.objects`, a fused pass)
+    tests = [n for hn_, h_ in list(m.walk.local_funcs.items()) + [('', prev_e)]
+             for n in ast.walk(h_) if isinstance(n, ast.Call) and src(n.func) == 'isinstance'
+             and len(n.args) == 2 and src(n.args[1]) == 'object_type']
+    rep.check('S.agent.position' in text and 'S.grid' in text and bool(tests)
               and 'object_type' in text, rule, REWARD, f.name, f.node.lineno, prev_t[:120],
               'the distance does not measure from the agent position to the object of the '
               'given type', 'measures agent-object distance')
